@@ -17,14 +17,15 @@ Rec == ndJsonDeserialize(IOEnv.TRACE)
 SummaryHalf == 512      \* MisraGries keeps at most this many distinct strings when it tidies
 SummaryCap  == 1024
 
-VARIABLES l, slots, skip, errs, cleared
-vars == <<l, slots, skip, errs, cleared>>
+VARIABLES l, slots, skip, errs, cleared, reserved
+vars == <<l, slots, skip, errs, cleared, reserved>>
 
 \* `cleared`: slots that were cleared earlier in this run - a rejection on such a slot also
 \* means that clear() did not make the region fresh (C08)
 SlotOf(e) == IF "s" \in DOMAIN e THEN e.s ELSE IF "d" \in DOMAIN e THEN e.d ELSE 0
 Err(e, why) == IF PrintT(<<"ERR", ToJson([line |-> l, run |-> e.run, why |-> why,
-                                          afterclear |-> SlotOf(e) \in cleared])>>) THEN errs + 1 ELSE errs
+                                          afterclear |-> SlotOf(e) \in cleared,
+                                          reserved |-> SlotOf(e) \in reserved])>>) THEN errs + 1 ELSE errs
 
 RECURSIVE ErrAll(_, _, _)
 ErrAll(e, whys, acc) == IF whys = <<>> THEN acc ELSE ErrAll(e, Tail(whys), Err(e, Head(whys)) - errs + acc)
@@ -34,7 +35,7 @@ ErrAll(e, whys, acc) == IF whys = <<>> THEN acc ELSE ErrAll(e, Tail(whys), Err(e
 Fresh == [tags |-> {}, must |-> {}, may |-> {}, anyseen |-> FALSE, coded |-> {}, literal |-> {}, k |-> 0,
           counts |-> NoCounts, first |-> {}, issued |-> <<>>, exact |-> TRUE, poisoned |-> FALSE]
 
-Init == l = 1 /\ slots = <<>> /\ skip = FALSE /\ errs = 0 /\ cleared = {}
+Init == l = 1 /\ slots = <<>> /\ skip = FALSE /\ errs = 0 /\ cleared = {} /\ reserved = {}
 
 Distinct(sl) == Cardinality(DOMAIN sl.counts)
 
@@ -99,6 +100,12 @@ Step(e) ==
          THEN errs' = Err(e, "merge-panicked") /\ skip' = TRUE /\ UNCHANGED slots
          ELSE /\ slots' = [slots EXCEPT ![e.d] = MergedView([i \in 1..Len(e.srcs) |-> slots[e.srcs[i]]])]
               /\ UNCHANGED <<skip, errs>>
+    [] e.ev = "reserve" ->
+         \* reserve_regions: pre-sizing only - every issued item reads as before and the monitor's view of the slot
+         \* (tags, what must / may be coded) is untouched; later rejections on the slot are tagged `reserved`
+         IF e.panic THEN errs' = Err(e, "reserve-panicked") /\ skip' = TRUE /\ UNCHANGED slots
+         ELSE IF ~e.stable THEN errs' = Err(e, "reserve-changed-reads") /\ skip' = TRUE /\ UNCHANGED slots
+         ELSE UNCHANGED <<slots, skip, errs>>
     [] e.ev = "clear" ->
          IF e.panic
          THEN errs' = Err(e, "clear-panicked") /\ skip' = TRUE /\ UNCHANGED slots
@@ -111,6 +118,11 @@ Next == /\ l <= Len(Rec)
                       ELSE IF Rec[l].ev = "clear" THEN cleared \cup {Rec[l].s}
                       ELSE IF Rec[l].ev = "merge" THEN cleared \ {Rec[l].d}
                       ELSE cleared
+        /\ reserved' = IF Rec[l].ev = "reset" THEN {}
+                       ELSE IF Rec[l].ev = "reserve" THEN reserved \cup {Rec[l].s}
+                       ELSE IF Rec[l].ev = "merge" THEN reserved \ {Rec[l].d}
+                       ELSE IF Rec[l].ev = "clear" THEN reserved \ {Rec[l].s}
+                       ELSE reserved
         /\ (l = Len(Rec)) => PrintT(<<"DONE", l, errs'>>)
 
 Spec == Init /\ [][Next]_vars
